@@ -18,13 +18,15 @@ def job(j):
     from qlasskit.decompiler import Decompiler, circuit_boolean_optimizer
 
     out = []
-    todo = [(gs, False) for gs in j["strings"]]
+    todo = [(gs, False, False) for gs in j["strings"]]
+    # strings in which the same gate recurs on the same wires: also built from ONE gate object per kind
+    todo += [(gs, False, True) for gs in j["strings"] if len({(g["cls"], tuple(g["w"])) for g in gs}) < len(gs)]
     if j["prop"] == "C11" and j["strings"]:
-        todo.append((j["strings"][0], True))   # the same string followed by a gate on a qubit the circuit does not have
-    for gs, oob in todo:
+        todo.append((j["strings"][0], True, False))   # the same string followed by a gate on a qubit the circuit does not have
+    for gs, oob, share in todo:
         nq = j["nq"]
-        qc = GT.build_circuit(gs, nq)
-        c = {"key": key_of(gs) + ("+oob" if oob else ""), "nq": nq, "exc": ""}
+        qc = GT.build_circuit(gs, nq, share=share)
+        c = {"key": key_of(gs) + ("+oob" if oob else "") + ("+shared" if share else ""), "nq": nq, "exc": ""}
         if oob:
             try:
                 qc.x(nq)
@@ -99,12 +101,14 @@ def strings_for(pid, t, rng, sc):
         add("classical", 3, 0, cap=300, sim=200, depth=6, sd=seed() + 2, minlen=4)
         add("xhbar", 3, 0, cap=350, sim=500, depth=9, sd=seed() + 4, minlen=5)
         add("classical", 12, 0, cap=60, sim=120, depth=5, sd=seed() + 5, minlen=2)   # wide registers (two-digit qubit names)
+        add("zerotest", 8, 30)                                  # wide conjunctions of negated controls
         add("cxnet", 3, 4, cap=450)
         add("cxnet", 3, 0, cap=150, sim=150, depth=7, sd=seed() + 3, minlen=5)
     else:
         add("xhbar", 3, 6, cap=6000)
         add("xhbar", 3, 0, sim=3000, depth=10, sd=seed() + 4, minlen=7)
         add("classical", 12, 0, cap=400, sim=600, depth=6, sd=seed() + 5, minlen=2)
+        add("zerotest", 9, 30)
         add("cxnet", 3, 5, cap=8000)
         add("cxnet", 4, 0, sim=2000, depth=9, sd=seed() + 3, minlen=4)
         add("classical", 3, 3)                                 # all strings of <= 3 gates, a seeded sample of the 4-gate ones
